@@ -21,6 +21,23 @@ if os.environ.get("PF_JIT", "0") != "1":
 if REPO not in sys.path:
     sys.path.insert(0, REPO)
 
+# development aid (harness/linecov.py): which lines / branches of the implementation does the correspondence
+# execute?  Never part of a verdict; off unless PF_LINECOV names a data file.
+if os.environ.get("PF_LINECOV"):
+    try:
+        import atexit
+        import coverage as _coverage
+        _COV = _coverage.Coverage(data_file=os.environ["PF_LINECOV"], data_suffix=True, branch=True,
+                                  include=[os.path.join(REPO, "pyflwdir", "*")])
+        _COV.start()
+
+        def _cov_stop():
+            _COV.stop()
+            _COV.save()
+        atexit.register(_cov_stop)
+    except Exception:  # noqa: BLE001
+        pass
+
 import numpy as np  # noqa: E402
 
 
